@@ -44,6 +44,8 @@ inductive Value where
   | int (i : Int)
   | num (q : Rat)
   | nan
+  /-- the double `-0.0` (prints with its sign; it has no rational of its own) -/
+  | negz
   deriving DecidableEq, Repr
 
 /-- text of the value before padding -/
@@ -54,6 +56,7 @@ def Value.text (spec : Spec) : Value → Str
   | .int i => fmtInt i
   | .num q => fmtFixedCore q (spec.prec.getD 6)
   | .nan => "nan".toList
+  | .negz => '-' :: fmtFixedCore 0 (spec.prec.getD 6)
 
 /-- default alignment: text left, numbers right -/
 def Value.defaultAlign : Value → Align
@@ -70,6 +73,7 @@ def Value.okFor (spec : Spec) : Value → Bool
   | .int _ => spec.ty = .any || spec.ty = .int
   | .num _ => spec.ty = .fix
   | .nan => spec.ty = .fix
+  | .negz => spec.ty = .fix
 
 /-- the value's text is no wider than its cell -/
 def fitsCell (spec : Spec) (v : Value) : Bool := decide ((v.text spec).length ≤ spec.width)
@@ -91,7 +95,7 @@ def renderCells : List Cell → List Value → Option Str
 /-- nominal columns of a line: every cell occupies exactly its width (literals their length) -/
 def nominalFrom (pos : Nat) : List Cell → List (String × Nat × Nat)
   | [] => []
-  | .lit t :: cs => nominalFrom (pos + t.length) cs
+  | .lit t :: cs => nominalFrom (pos + t.toList.length) cs
   | .fld n spec :: cs => (n, pos, pos + spec.width) :: nominalFrom (pos + spec.width) cs
   | .other n :: cs => (n, pos, pos) :: nominalFrom pos cs
 
@@ -100,7 +104,7 @@ def nominal (cells : List Cell) : List (String × Nat × Nat) := nominalFrom 0 c
 /-- total nominal width of a line (without the newline of a trailing literal counted specially) -/
 def nominalWidth : List Cell → Nat
   | [] => 0
-  | .lit t :: cs => t.length + nominalWidth cs
+  | .lit t :: cs => t.toList.length + nominalWidth cs
   | .fld _ spec :: cs => spec.width + nominalWidth cs
   | .other _ :: cs => nominalWidth cs
 
@@ -111,6 +115,30 @@ def allFit : List Cell → List Value → Bool
   | .fld _ spec :: cs, v :: vs => v.okFor spec && fitsCell spec v && allFit cs vs
   | .fld _ _ :: _, [] => false
   | .other _ :: _, _ => false
+
+/-- the formatted (padded) cells of a line, in order -/
+def cellTexts : List Cell → List Value → List Str
+  | [], _ => []
+  | .lit _ :: cs, vs => cellTexts cs vs
+  | .fld _ spec :: cs, v :: vs => fmtValue spec v :: cellTexts cs vs
+  | .fld _ _ :: _, [] => []
+  | .other _ :: cs, vs => [] :: cellTexts cs vs
+
+/-- the unpadded texts of the values of a line, in order -/
+def valueTexts : List Cell → List Value → List Str
+  | [], _ => []
+  | .lit _ :: cs, vs => valueTexts cs vs
+  | .fld _ spec :: cs, v :: vs => v.text spec :: valueTexts cs vs
+  | .fld _ _ :: _, [] => []
+  | .other _ :: cs, vs => [] :: valueTexts cs vs
+
+/-- no value text has outer blanks -/
+def allClean : List Cell → List Value → Bool
+  | [], _ => true
+  | .lit _ :: cs, vs => allClean cs vs
+  | .fld _ spec :: cs, v :: vs => Clean (v.text spec) && allClean cs vs
+  | .fld _ _ :: _, [] => true
+  | .other _ :: cs, vs => allClean cs vs
 
 /-- the nominal cell intervals as a FixedCol layout -/
 def toLayout (cells : List Cell) : Layout := (nominal cells).map fun (n, a, b) => ⟨n, a, b⟩
@@ -129,7 +157,7 @@ def onlyBlanksAround (cells : List Cell) (keep : String) (a b : Nat) : Bool :=
     | [] => true
     | .lit t :: cs =>
       let ok := (t.toList.zipIdx.all fun (c, i) => !(a ≤ pos + i && pos + i < b) || c = ' ' || c = '\n')
-      ok && go (pos + t.length) cs
+      ok && go (pos + t.toList.length) cs
     | .fld n spec :: cs =>
       let overlap := decide (pos < b) && decide (a < pos + spec.width) && decide (0 < spec.width)
       (n = keep || !overlap) && go (pos + spec.width) cs
